@@ -22,12 +22,12 @@ git -C $run/repo apply $dst/patch.diff || { echo "patch does not apply"; git -C 
 res=""
 cd $run/verif
 for c in $checks; do
-  out=$(VERIF_REPO=$run/repo ./check $c 2>/dev/null)
+  out=$(VERIF_REPO=$run/repo ./check $c 2>/dev/null); rc=$?
   nv=$(echo "$out" | grep -c "^VIOLATION")
   line=$(echo "$out" | grep "^VIOLATION" | head -1)
   nf=$(echo "$line" | grep -c "no-failing-input-found")
-  res="$res $c:violation_lines=$nv,failing_input=$((1-nf))"
-  echo "  check $c -> $nv violation line(s)  $line"
+  res="$res $c:rc=$rc,violation_lines=$nv,failing_input=$((1-nf))"
+  echo "  check $c -> rc=$rc $nv violation line(s)  $line"
 done
 cd /verif; git -C /repo worktree remove --force $run/repo
 rm -rf $run
